@@ -139,7 +139,8 @@ def run(ctx: Ctx) -> None:
     ctx.cov["rule"] = (
         "job sets of fragment-F definitions (small exhaustive family, seeded random up to 10 events) and the corpus; "
         "presentations {base, jobs permuted, events permuted inside every job, event/job ids renamed and timestamps "
-        f"shifted, one job supplied twice}} x interpreter hash seeds {seeds} in separate processes. non-trivial: the "
+        "shifted, one job supplied twice, one flat stream with the jobs' events interleaved (ingestion clause, through "
+        f"cluster_events_by_job_id)}} x interpreter hash seeds {seeds} in separate processes. non-trivial: the "
         "definition has a fork and a loop, or a fork nested in a fork"
     )
     # ---- part A: ingestion -----------------------------------------------------------------------------
@@ -149,6 +150,22 @@ def run(ctx: Ctx) -> None:
         for name, pv in c["pres"].items():
             reqs.append({"op": "ingest", "jobs": pv, "hash_seed": 0, "timeout": 30})
             meta.append((i, name))
+        # the same jobs as one flat stream with the events of different jobs interleaved (round robin from a random
+        # offset, then two random transpositions), clustered by the project's cluster_events_by_job_id
+        queues = [list(j) for j in c["pres"]["base"]]
+        flat: list[Any] = []
+        k = ctx.rng.randrange(max(1, len(queues)))
+        while any(queues):
+            q = queues[k % len(queues)]
+            if q:
+                flat.append(q.pop(0))
+            k += 1
+        for _ in range(2):
+            if len(flat) > 1:
+                a, b = ctx.rng.randrange(len(flat)), ctx.rng.randrange(len(flat))
+                flat[a], flat[b] = flat[b], flat[a]
+        reqs.append({"op": "ingest", "flat": flat, "hash_seed": 0, "timeout": 30})
+        meta.append((i, "flat_interleaved"))
     reps = pvlib.run_requests(reqs)
     models: dict[int, dict[str, Any]] = {}
     for (i, name), rp in zip(meta, reps):
